@@ -52,9 +52,14 @@ func chooseIs1() *E      { return cmp("==", chooseE(2), lit(TInt, 1)) }
 var cfForms = []string{"if", "ifelse-then", "ifelse-else", "elseif-mid", "elseif-last", "forever", "while", "for3", "for3-assignpost", "range",
 	"switch-first", "switch-mid", "switch-last", "switch-default-first", "switch-default-last", "tagless-mid", "tagless-default"}
 
+// further forms, combined with a representative subset of the forms above (cfExtraPartners): loop and
+// branch conditions whose last operand is negated, switches with an empty clause that matches
+var cfExtraForms = []string{"while-and-not", "while-or-not", "if-or-not", "switch-empty-case", "tagless-empty-case"}
+var cfExtraPartners = []string{"if", "while", "for3", "range", "switch-mid", "tagless-default"}
+
 func cfIsLoop(f string) bool {
 	switch f {
-	case "forever", "while", "for3", "for3-assignpost", "range":
+	case "forever", "while", "for3", "for3-assignpost", "range", "while-and-not", "while-or-not":
 		return true
 	}
 	return false
@@ -129,6 +134,29 @@ func (b *cfBuilder) wrap(form string, inner []*S) []*S {
 			HasDef: true, DefPos: 1, Def: []*S{b.m()}}}
 	case "tagless-default":
 		body = []*S{{K: "switch", Cases: []*Case{{Vals: []*E{chooseIs1()}, Body: []*S{b.m()}}}, HasDef: true, DefPos: 1, Def: b.after(inner)}}
+	case "while-and-not", "while-or-not":
+		// the loop condition ends in a negated operand; the left operand decides on some iterations
+		k, f := b.name("k"), b.name("f")
+		left := cmp("<", v(k, TInt), lit(TInt, 2))
+		cond := &E{K: "and", Ty: TBool, L: left, R: &E{K: "not", Ty: TBool, X: v(f, TBool)}}
+		if form == "while-or-not" {
+			cond = &E{K: "or", Ty: TBool, L: left, R: &E{K: "not", Ty: TBool, X: v(f, TBool)}}
+		}
+		body = []*S{{K: "decl", Names: []string{k}, Exprs: []*E{lit(TInt, 0)}}, {K: "decl", Names: []string{f}, Exprs: []*E{chooseIs1()}},
+			{K: "for", Cond: cond, Body: b.after(append([]*S{{K: "incdec", Lhs: []*E{v(k, TInt)}, D: 1}, {K: "if", Cond: cmp(">", v(k, TInt), lit(TInt, 3)), Then: []*S{{K: "break"}}}, b.m(v(k, TInt))}, inner...))},
+			b.m(v(k, TInt))}
+	case "if-or-not":
+		f := b.name("f")
+		body = []*S{{K: "decl", Names: []string{f}, Exprs: []*E{chooseIs1()}},
+			{K: "if", Cond: &E{K: "or", Ty: TBool, L: chooseIs1(), R: &E{K: "not", Ty: TBool, X: v(f, TBool)}}, Then: b.after(inner), HasElse: true, Else: []*S{b.m()}}}
+	case "switch-empty-case":
+		// a clause without statements that matches: nothing runs, in particular not the default clause
+		s := &S{K: "switch", Tag: chooseE(3)}
+		s.Cases = []*Case{{Vals: []*E{lit(TInt, 0)}, Body: nil}, {Vals: []*E{lit(TInt, 1), lit(TInt, 4)}, Body: []*S{b.m()}}}
+		s.HasDef, s.DefPos, s.Def = true, 2, b.after(inner)
+		body = []*S{s}
+	case "tagless-empty-case":
+		body = []*S{{K: "switch", Cases: []*Case{{Vals: []*E{chooseIs1()}, Body: nil}, {Vals: []*E{chooseIs1()}, Body: b.after(inner)}}, HasDef: true, DefPos: 2, Def: []*S{b.m()}}}
 	default:
 		panic("form " + form)
 	}
@@ -158,6 +186,14 @@ func c06Family(depth int, stride int) []*Prog {
 		}
 	}
 	rec(nil)
+	for _, x := range cfExtraForms {
+		chains = append(chains, []string{x})
+		if depth >= 2 {
+			for _, y := range cfExtraPartners {
+				chains = append(chains, []string{x, y}, []string{y, x})
+			}
+		}
+	}
 	n := 0
 	for _, chain := range chains {
 		inLoop, inSwitch := false, false
@@ -208,7 +244,7 @@ func c06Family(depth int, stride int) []*Prog {
 }
 
 func checkC06(c *Ctx) {
-	c.Rule = "programs = the jump-placement family (every nesting chain of depth <= D over 17 compound forms x {break, continue, return} x {bare, guarded}) + seeded random control-flow programs whose conditions are test inputs; every program explored by TLC on ALL input paths (<= 10 inputs per path) and every path replayed on goatlang; distinct_nontrivial = distinct (program, input path) behaviours"
+	c.Rule = "programs = the jump-placement family (every nesting chain of depth <= D over 17 compound forms (plus 5 further forms - loop / branch conditions ending in a negated operand, switches with an empty clause that matches - combined with 6 of them) x {break, continue, return} x {bare, guarded}) + seeded random control-flow programs whose conditions are test inputs; every program explored by TLC on ALL input paths (<= 10 inputs per path) and every path replayed on goatlang; distinct_nontrivial = distinct (program, input path) behaviours"
 	c.Assumptions = []string{"MiniGo.tla is calibrated against the Go toolchain on every behaviour of a deterministic sample of the family and of every random program", "paths that consume more than 10 test inputs are not explored"}
 	depth := c.pick(2, 3)
 	progs := c06Family(depth, 1)
